@@ -4,10 +4,11 @@
 EXTENDS NameTable, TLC, Json
 CONSTANTS MaxPlaced, Positions, Kinds, Boxes
 
-Mods == << <<"A">>, <<"A", "B">>, <<"A", "B", "C">>, <<"B">>, <<"A", "C">> >>
+\* (<<"A", "A">>: a module path that repeats itself - "A::T" written in module A designates A::A::T when that exists)
+Mods == << <<"A">>, <<"A", "B">>, <<"A", "B", "C">>, <<"B">>, <<"A", "C">>, <<"A", "A">> >>
 Spellings == { [segs |-> <<"T">>, global |-> FALSE], [segs |-> <<"B", "T">>, global |-> FALSE], [segs |-> <<"A", "B", "T">>, global |-> FALSE],
                [segs |-> <<"A", "B", "T">>, global |-> TRUE], [segs |-> <<"T">>, global |-> TRUE], [segs |-> <<"C", "T">>, global |-> FALSE],
-               [segs |-> <<"Box", "T">>, global |-> FALSE] }
+               [segs |-> <<"Box", "T">>, global |-> FALSE], [segs |-> <<"A", "T">>, global |-> FALSE] }
 WantOf(pos) == CASE pos = "base" -> "interface" [] pos = "underlying" -> "primitive" [] OTHER -> "type"
 
 VARIABLES placed,   \* module index -> kind of the definition T placed there, or "none"
@@ -36,6 +37,6 @@ Files == LET RECURSIVE Go(_)
 Reverse(s) == [i \in 1..Len(s) |-> s[Len(s) + 1 - i]]
 BindingIsDesignated == (ref # NoRef /\ NoCollision(Files)) => Lookup(Files, ref) = Designated(Files, ref)
 OrderIndependent    == (ref # NoRef /\ NoCollision(Files)) => Lookup(Reverse(Files), ref) = Lookup(Files, ref)
-Emit == ref # NoRef => PrintT(<<"CASE", ToJson([placed |-> placed, box |-> box, scope |-> ref.scope, at |-> ref.at, segs |-> ref.segs, global |-> ref.global,
+Emit == ref # NoRef => PrintT(<<"CASE", ToJson([mods |-> Mods, placed |-> placed, box |-> box, scope |-> ref.scope, at |-> ref.at, segs |-> ref.segs, global |-> ref.global,
                                  pos |-> pos, rev |-> rev, expect |-> Outcome(Designated(Files, ref), WantOf(pos))])>>)
 ====================================================================================================
